@@ -16,6 +16,9 @@ import sys
 import time
 import traceback
 
+if hasattr(sys, 'set_int_max_str_digits'):
+    sys.set_int_max_str_digits(0)       # exact rationals of long histories print with thousands of digits
+
 VERIF = os.path.dirname(os.path.dirname(os.path.abspath(__file__)))
 REPO = os.environ.get('VERIF_REPO', '/repo')
 
